@@ -1,5 +1,6 @@
 import HapVerif.Model.C11
 import HapVerif.Drv.C02
+import HapVerif.Drv.C11Sync
 namespace HapVerif.C11
 open HapVerif.Drv HapVerif.C02
 
@@ -76,6 +77,7 @@ def handleMulti (shardsT shardOfT cfgT stepsTxt impl : String) : Verdict :=
 impl: `<0|1> <cmds> <cur'>` -/
 def handle (args : List String) (impl : String) : Verdict :=
   match args with
+  | "world" :: ops => C11Sync.handleWorld ops impl
   | ["align", fl, epss] =>
     match parseFlags fl, parseList parseEP epss, parseList parseEP impl with
     | some f, some eps, some after =>
